@@ -219,6 +219,9 @@ def run(ctx):
         faults = fault_cells()
         items = [("table", t) for t in table] + [("cell", c) for c in cells] + [("fault", f) for f in faults]
         cen = [("census", (n, t, e, 1)) for n, t, e in sweep.census_cells()]
+        hostile = sweep.collision_string_programs(plain, ctx.rng("collide"), want=ctx.n(6, 40))
+        ctx.require(len(hostile) >= 3, "could not find hash-colliding string pairs")
+        items += [("hostile", (n, t, e, 1)) for n, t, e in hostile]
 
         def do(item):
             kind, (name, text, exp, ncell) = item
@@ -260,6 +263,8 @@ def run(ctx):
                     continue
                 ok = (got == want) and (res.status == 0)
                 key = "%s|%s|%s" % ("census" if kind == "census" else kind, name, eng)
+                if kind == "hostile":
+                    key = "hostile|hash-colliding-strings|%s" % eng
                 cell_hist[eng + (":ok" if ok else ":differ")] = cell_hist.get(eng + (":ok" if ok else ":differ"), 0) + 1
                 if not ok:
                     d = engines.first_diff(want, got)
